@@ -331,6 +331,178 @@ RACE = Harness(
     stubs=STUBS_COMMON,
 )
 
+# ------------------------------------------------------------------------------ J-cancel / J-state
+import symsched  # noqa: E402
+
+CTX_STATES = ["open", "being torn down (called from a teardown callback)", "already closed (a task that outlives the block it was spawned in)"]
+
+
+def cancel_params(tier):
+    return [P("mode", 0, 1), P("c", 0, 4), P("fsteps", 0, 2), P("state", 0, 2), P("is_async", 0, 1), P("present", 0, 2)]
+
+
+@guard
+def cancel_fn(a, tier):
+    mode = pick(a["mode"], 2)
+    if mode == 0:
+        return _cancel_race(pick(a["c"], 5), pick(a["fsteps"], 3))
+    return _state_equiv(pick(a["state"], 3), pick(a["is_async"], 2), pick(a["present"], 3))
+
+
+def _cancel_race(c, fsteps):
+    """The same schedule twice - explicit lookups, then the injected call: a cancellation of the caller while the lookup is pending behaves alike."""
+
+    @inject
+    async def injected(x, *, r: T1 = resource("slow")):
+        return ("body", x, r.label)
+
+    async def explicit(x):
+        r = await current_context().get_resource(T1, "slow")
+        return ("body", x, r.label)
+
+    def scenario(call):
+        log = []
+
+        async def main():
+            async with Context() as ctx, anyio.create_task_group() as tg:
+                release = anyio.Event()
+                holder = {}
+
+                async def factory():
+                    log.append("factory_begin")
+                    for _ in range(fsteps):
+                        await anyio.sleep(0)
+                    await release.wait()
+                    log.append("factory_end")
+                    return Val("made")
+
+                ctx.add_resource_factory(factory, "slow", types=[T1])
+
+                async def caller():
+                    with anyio.CancelScope() as scope:
+                        holder["scope"] = scope
+                        try:
+                            log.append(("returned", await call(1)))
+                        except symsched.Cancelled:
+                            log.append("caller_cancelled")
+                            raise
+                    log.append(("caller_left", scope.cancelled_caught))
+
+                tg.start_soon(caller)
+                for _ in range(c):
+                    await anyio.sleep(0)
+                log.append("cancel")
+                holder["scope"].cancel() if "scope" in holder else log.append("cancel-too-early")
+                for _ in range(5):
+                    await anyio.sleep(0)
+                log.append("release")
+                release.set()
+
+        _, exc, _k = run(main)
+        return log, exc
+
+    log_e, exc_e = scenario(explicit)
+    log_i, exc_i = scenario(injected)
+    summary = {"cancel_after_checkpoints": c, "factory_checkpoints_before_it_blocks": fsteps, "explicit": [str(x) for x in log_e], "injected": [str(x) for x in log_i]}
+    if exc_e is not None or exc_i is not None:
+        return FAIL(f"cancel:raised:{type(exc_e or exc_i).__name__}", f"{exc_e!r} {exc_i!r}", summary)
+    if log_i != log_e:
+        return FAIL("cancel:injected-call-cancelled-during-its-lookup-behaves-unlike-the-explicit-lookups", f"explicit={log_e} injected={log_i}", summary)
+    return OK(summary, "caller_cancelled" in log_e)
+
+
+def _state_equiv(state, is_async, present):
+    """Explicit lookups vs the injected call with the current context open / closing / closed."""
+    names = ["static", "absent", "inherited"][present]
+
+    if is_async:
+
+        @inject
+        async def injected(*, r: T0 = resource("res"), o: Optional[T1] = resource("opt")):
+            return ("body", r.label, o and o.label)
+
+        async def explicit():
+            ctx = current_context()
+            r = await ctx.get_resource(T0, "res")
+            o = await ctx.get_resource(T1, "opt", optional=True)
+            return ("body", r.label, o and o.label)
+
+    else:
+
+        @inject
+        def injected(*, r: T0 = resource("res"), o: Optional[T1] = resource("opt")):
+            return ("body", r.label, o and o.label)
+
+        def explicit():
+            ctx = current_context()
+            r = ctx.get_resource_nowait(T0, "res")
+            o = ctx.get_resource_nowait(T1, "opt", optional=True)
+            return ("body", r.label, o and o.label)
+
+    def scenario(call):
+        out = {}
+
+        async def attempt():
+            try:
+                r = call()
+                out["result"] = ("ok", await r if is_async else r)
+            except Exception as e:
+                out["result"] = ("exc", type(e).__name__)
+
+        async def main():
+            async with anyio.create_task_group() as outer:
+                async with Context() as parent:
+                    if present == 2:
+                        parent.add_resource(Val("the-resource"), "res", [T0])
+                    gate = anyio.Event()
+                    async with Context() as ctx:
+                        if present == 0:
+                            ctx.add_resource(Val("the-resource"), "res", [T0])
+                            ctx.add_resource(Val("the-optional-one"), "opt", [T1])  # every injected parameter is present in the context's own table
+                        if state == 0:
+                            await attempt()
+                        elif state == 1:
+                            ctx.add_teardown_callback(attempt)
+                        else:
+
+                            async def straggler():
+                                await gate.wait()
+                                await attempt()
+
+                            outer.start_soon(straggler)  # inherits the current context of its spawner
+                            await anyio.sleep(0)
+                    gate.set()
+                    await anyio.wait_all_tasks_blocked()
+
+        _, exc, _k = run(main)
+        return out.get("result"), exc
+
+    res_e, exc_e = scenario(explicit)
+    res_i, exc_i = scenario(injected)
+    summary = {"current_context": CTX_STATES[state], "function": "async def" if is_async else "def", "resource": names, "explicit": res_e, "injected": res_i}
+    if exc_e is not None or exc_i is not None:
+        return FAIL(f"state:raised:{type(exc_e or exc_i).__name__}", f"{exc_e!r} {exc_i!r}", summary)
+    if res_i != res_e:
+        return FAIL(f"state:injected-call-differs-from-explicit-lookups:context={state}:async={is_async}:resource={names}", f"explicit={res_e} injected={res_i}", summary)
+    return OK(summary, True)
+
+
+CANCEL = Harness(
+    prop="C19",
+    name="J-cancel",
+    fn=cancel_fn,
+    params=cancel_params,
+    cube=lambda tier: 1,
+    title="equivalence with the explicit lookups when the call is cancelled during its lookup, and when the current context is closing or closed",
+    bound_text=lambda tier: "(a) injected async function whose resource comes from an async factory that awaits 0-2 checkpoints and then blocks; the caller's scope is "
+    "cancelled after 0-4 checkpoints, the factory released 5 checkpoints later; (b) sync/async injected function called while the current context is {"
+    + "; ".join(CTX_STATES) + "} with the resource static / absent / inherited",
+    oracle="the event log (a) resp. the outcome (b) of the injected call equals that of a function performing the explicit get_resource / get_resource_nowait "
+    "calls under the same deterministic schedule",
+    outside="other schedules than FIFO for (a)",
+    stubs=STUBS_COMMON,
+)
+
 # ------------------------------------------------------------------------------ J-late
 def late_params(tier):
     return [P("is_async", 0, 1), P("nested_fn", 0, 1), P("present", 0, 1), P("optional", 0, 1)]
@@ -467,4 +639,4 @@ COMP = Harness(
     stubs=STUBS_COMMON,
 )
 
-HARNESSES = [H, DECO, RACE, LATE, COMP]
+HARNESSES = [H, DECO, RACE, CANCEL, LATE, COMP]
